@@ -1194,6 +1194,11 @@ func getExternalLintV1Beta1V1ForLintConfig(lintConfig LintConfig, moduleDirPath 
 	externalLint.Use = lintConfig.UseIDsAndCategories()
 	externalLint.Except = lintConfig.ExceptIDsAndCategories()
 	externalLint.Ignore = slicesext.Map(lintConfig.IgnorePaths(), joinDirPath)
+	if lintConfig.Disabled() {
+		// A disabled check config is one that ignores its own module, see CheckConfig.Disabled().
+		// It has no other ignore paths, write it back the way it is read.
+		externalLint.Ignore = []string{moduleDirPath}
+	}
 	externalLint.IgnoreOnly = make(map[string][]string, len(lintConfig.IgnoreIDOrCategoryToPaths()))
 	for idOrCategory, importPaths := range lintConfig.IgnoreIDOrCategoryToPaths() {
 		externalLint.IgnoreOnly[idOrCategory] = slicesext.Map(importPaths, joinDirPath)
@@ -1217,6 +1222,11 @@ func getExternalLintV2ForLintConfig(lintConfig LintConfig, moduleDirPath string)
 	externalLint.Use = lintConfig.UseIDsAndCategories()
 	externalLint.Except = lintConfig.ExceptIDsAndCategories()
 	externalLint.Ignore = slicesext.Map(lintConfig.IgnorePaths(), joinDirPath)
+	if lintConfig.Disabled() {
+		// A disabled check config is one that ignores its own module, see CheckConfig.Disabled().
+		// It has no other ignore paths, write it back the way it is read.
+		externalLint.Ignore = []string{moduleDirPath}
+	}
 	externalLint.IgnoreOnly = make(map[string][]string, len(lintConfig.IgnoreIDOrCategoryToPaths()))
 	for idOrCategory, importPaths := range lintConfig.IgnoreIDOrCategoryToPaths() {
 		externalLint.IgnoreOnly[idOrCategory] = slicesext.Map(importPaths, joinDirPath)
@@ -1240,6 +1250,11 @@ func getExternalBreakingForBreakingConfig(breakingConfig BreakingConfig, moduleD
 	externalBreaking.Use = breakingConfig.UseIDsAndCategories()
 	externalBreaking.Except = breakingConfig.ExceptIDsAndCategories()
 	externalBreaking.Ignore = slicesext.Map(breakingConfig.IgnorePaths(), joinDirPath)
+	if breakingConfig.Disabled() {
+		// A disabled check config is one that ignores its own module, see CheckConfig.Disabled().
+		// It has no other ignore paths, write it back the way it is read.
+		externalBreaking.Ignore = []string{moduleDirPath}
+	}
 	externalBreaking.IgnoreOnly = make(map[string][]string, len(breakingConfig.IgnoreIDOrCategoryToPaths()))
 	for idOrCategory, importPaths := range breakingConfig.IgnoreIDOrCategoryToPaths() {
 		externalBreaking.IgnoreOnly[idOrCategory] = slicesext.Map(importPaths, joinDirPath)
